@@ -1,5 +1,5 @@
 (* C06  Matching honours price limits, liquidity limits and lot sizes. *)
-From RQ Require Import Model.Num Model.Position Model.Matcher Proofs.NumFacts Proofs.MatcherFacts.
+From RQ Require Import Model.Num Model.Position Model.Matcher Model.MatcherRun Proofs.NumFacts Proofs.MatcherFacts Proofs.MatcherRunFacts.
 Open Scope Q_scope.
 
 Section C06.
@@ -35,6 +35,31 @@ Theorem C06_cap_bound : forall g i turnover v, 0 < i_lot i ->
   volume_cap g i v turnover <= zq (qround_even (qmul v (m_volume_percent g))) - turnover.
 Proof. intros g i turnover v. exact (volume_cap_bound g i turnover v). Qed.
 
+(* the matcher as a state machine (Model/MatcherRun.v): for EVERY sequence of matcher calls and updates, the quantity traded in an
+   instrument since the last update (added up from the trades, as a listener would) equals the matcher's booked turnover and never
+   exceeds round(volume * fraction) - whatever the orders, their interleaving across instruments and accounts, and the outcomes of
+   the other calls.  `governed` only asks that the calls on k see the same bar volume and fraction, an open remainder and a lot size. *)
+Theorem C06_total_per_bar : forall k v pct ops, Forall (governed k v pct) ops ->
+  fills_of k (ms_fills (mrun ops)) == tget (ms_turnover (mrun ops)) k /\
+  fills_of k (ms_fills (mrun ops)) <= Qmax 0 (zq (qround_even (qmul v pct))).
+Proof. exact total_fills_per_bar. Qed.
+
+(* non-vacuity: three market orders of 500 / 400 / 300 shares against a bar of 4250 shares at 25 % (cap 1000 after lot rounding):
+   500 + 400 + 100 are traded, the booked turnover is 1000, and an update clears it *)
+Example C06_total_example :
+  let g := {| m_matching := CurrentBarClose; m_price_limit := true; m_inactive_limit := true; m_volume_limit := true;
+              m_volume_percent := 1 # 4; m_slip := PriceRatio; m_slip_rate := 0 |} in
+  let i := {| i_lot := 100; i_mult := 1; i_tick := 1 # 100; i_listed_today := false |} in
+  let b := {| b_open := Some 10; b_close := Some 10; b_volume := Some 4250; b_turnover := Some 42500; b_limit_up := Some 11; b_limit_down := Some 9 |} in
+  let a q := {| a_g := g; a_i := i; a_bar := b; a_abar := b; a_pb := b; a_auction := false;
+                a_o := {| mo_side := Buy; mo_effect := Open; mo_limit := false; mo_price := 0; mo_qty := q; mo_filled := 0; mo_reserve := 0 |};
+                a_fee := fun _ _ _ => 0; a_occ := fun _ => 0; a_avail := 0; a_ct := fun _ => 0 |} in
+  let ops := [MMatch 3 (a 500); MMatch 3 (a 400); MMatch 7 (a 200); MMatch 3 (a 300)] in
+  Forall (governed 3%nat 4250 (1 # 4)) ops /\ tget (ms_turnover (mrun ops)) 3 = 1000 /\ fills_of 3 (ms_fills (mrun ops)) == 1000 /\
+  tget (ms_turnover (mrun (ops ++ [MUpdate]))) 3 = 0.
+Proof. cbv zeta. split; [|split; [|split]]; try (vm_compute; reflexivity).
+  repeat constructor; intros _; (repeat split; try reflexivity); vm_compute; reflexivity. Qed.
+
 Example C06_example :
   let g := {| m_matching := CurrentBarClose; m_price_limit := true; m_inactive_limit := true; m_volume_limit := true;
               m_volume_percent := 1 # 4; m_slip := PriceRatio; m_slip_rate := 0 |} in
@@ -48,3 +73,4 @@ Print Assumptions C06_fill_shape_and_cap.
 Print Assumptions C06_market_no_rest.
 Print Assumptions C06_limit_rests.
 Print Assumptions C06_cap_bound.
+Print Assumptions C06_total_per_bar.
